@@ -1,6 +1,7 @@
 """C16 — with auth on, no data endpoint (HTTP or gRPC) is served without a valid token."""
 from ..core import Case
 from ..runner import Prop, ModelRun
+from . import cluster_gen
 
 # (method, canonical path, query) – data endpoints and the property's exceptions
 ENDPOINTS = [
@@ -138,6 +139,12 @@ class C16(Prop):
             "valid token must have been refused. non-trivial = >=2 ops")),
         ModelRun("openapi", gen_grpc_cluster, lambda c: len(c.ops) >= 2, spec_needs_impl=True,
                  impl_env={"RNACOS_CLUSTER_TOKEN": "x"}, rule="same gRPC sweep on a node started with a cluster token"),
+        ModelRun("cluster", cluster_gen.gen_tokens, lambda c: sum(1 for o in c.ops if o.startswith("tget")) >= 3,
+                 spec_needs_impl=True, shrinkable=False, rule=(
+            "the repository's own binary with RNACOS_ENABLE_OPEN_API_AUTH=true and access tokens that live 3 s: real logins, "
+            "reads and publishes with the token, without one, with a made-up one; the token's lifetime passes; the node is "
+            "killed and restarted (it replays the log entry that stored the token). oracle: a request without a valid token "
+            "- absent, made-up, or older than the lifetime - is answered 403 before and after every restart")),
     ]
     trusted_base = [
         "hand model RNacos/Model/Auth.lean over tables re-extracted by translate/translate.py (IGNORE_PATH, the two regex "
@@ -146,4 +153,5 @@ class C16(Prop):
         "gRPC fill_token_session (src/grpc/server.rs) is modelled (grpcFill) but not corresponded: only InvokerHandler::handle is executed",
         "token expiry is the cache's TTL: an expired token is represented by a cache entry whose ttl has passed",
     ]
-    assumptions = ["main.rs wraps the app in ApiCheckAuth exactly as the harness does (the wiring itself is not executed)"]
+    assumptions = ["main.rs wraps the app in ApiCheckAuth exactly as the in-process sweeps do; the wiring itself is executed only by the "
+                   "token scenario that runs the real binary"]
